@@ -18,6 +18,7 @@ structure Cell where
   flash : Bool := false
   underline : Bool := false
   bold : Bool := false
+  italic : Bool := false
   foreground : Nat := 7
   background : Nat := 0
   deriving Repr, DecidableEq, Inhabited
